@@ -685,6 +685,10 @@ class NestedExtensionArray(ExtensionArray):
     def __init__(self, values: pa.Array | pa.ChunkedArray, *, validate: bool = True) -> None:
         if isinstance(values, pa.Array):
             values = pa.chunked_array([values])
+        # Arrow kernels (e.g. filter) may return a chunked array with no chunks at all,
+        # always keep at least one (possibly empty) chunk
+        if values.num_chunks == 0:
+            values = pa.chunked_array([pa.array([], type=values.type)])
 
         # Convert list-struct array to struct-list array
         if is_pa_type_a_list(values.type):
